@@ -90,3 +90,105 @@ def run_scripts(names, rec):
         else:
             rec.count('ambient.script_failed')
     return ran
+
+
+POISON_NAMES = ['x0', 'x1', 'x2', 'total', 'neg', 'bal', 'YY', 'CC', 'x', 'y', 'F', 'HH__F', 'zc_report']
+
+
+def prehistory(idx):
+    """Unrelated, legitimate use of the package earlier in the same process: other solvers with their own user functions
+    and in-place edited parameter lists, other parsers, holders on other time axes, half-built models, callers that
+    mutate lists the package returned.  None of it may influence what a later, separate object computes; it is run
+    before a fixed share of the cases of EVERY check (state carried across objects or calls is a recurring way to
+    break any of the properties)."""
+    import contextlib, io
+    from sfc_models.equation_solver import EquationSolver
+    from sfc_models.equation_parser import EquationParser
+    from sfc_models.equation import Equation, Term
+    from sfc_models.utils import TimeSeriesHolder
+    from sfc_models import utils
+    from sfc_models.models import Model, Country
+    from sfc_models.sector import Sector, Market
+    from sfc_models.sector_definitions import Household
+    done = 0
+    with contextlib.redirect_stdout(io.StringIO()):
+        try:
+            o = EquationSolver('x = 0.5*LAG_x + half(y) + 1\ny = 0.25*x\nLAG_x = x(k-1)\nd = log(2.0) + x\nMaxTime = 2\nErr_Tolerance = 0.05')
+            for nm in ('half', 'log', 'uf', 'myfn', 'f2', 'damp'):
+                o.AddFunction(nm, lambda *a: -7.0)
+            for attr, val in list(vars(o).items()):
+                if attr.startswith('Parameter') and isinstance(val, list):
+                    val += POISON_NAMES            # in-place edit of THIS solver's own list
+            o.ParameterSolveInitialSteadyState = True
+            o.ParameterInitialSteadyStateMaxTime = 5
+            o.TraceStep = 1
+            try:
+                o.SolveEquation()
+            except Exception:
+                pass
+            o.ParseString('t = k + 1990.\nq = 0.5*q + g\nMaxTime = 3\nexogenous\ng = [1.]*6')
+            o.SolveEquation()
+            done += 1
+        except Exception:
+            pass
+        try:
+            p = EquationParser()
+            p.ParseString('t = k + 5\nw = 0.5*w + g # exogenous word in a comment\nMaxTime = 4\nexogenous\ng = [1.]*6')
+            p.ParseString('w = 1')
+            for f in (utils.get_invalid_tokens, utils.get_invalid_variable_names):
+                lst = f()
+                if isinstance(lst, list):
+                    del lst[:]                      # a caller may do what it likes with a list it was handed
+                elif isinstance(lst, set):
+                    lst.clear()
+            done += 1
+        except Exception:
+            pass
+        try:
+            for axis in ('year', 'x', 'F', 'k'):
+                h = TimeSeriesHolder(axis)
+                h[axis] = [1.0, 2.0]
+                h['zz'] = [3.0, 4.0]
+                h.GenerateCSVtext()
+                lst = h.GetSeriesList()
+                if isinstance(lst, list):
+                    del lst[:]
+            done += 1
+        except Exception:
+            pass
+        try:
+            t = Term('a*b')
+            e = Equation('v', 'd', [Term('2*(a-b)', is_blob=True), t])
+            e.AddTerm(t)
+            e.AddTerm('-a/b')
+            e.ReplaceTokensFromLookup({'a': 'b', 'b': 'a'})
+            e.ReplaceTokensFromLookup({'a': 'c'})
+            str(e)
+            done += 1
+        except Exception:
+            pass
+        try:
+            m = Model()
+            c = Country(m, 'PH', 'prehistory')
+            hh = Household(c, 'HH', 'hh')
+            hh.GetVariableName('F')
+            Market(c, 'GOOD', 'good')
+            s = Sector(c, 'S', 's')
+            s.AddVariable('W', 'w', '1.0')
+            s.AddCashFlow('W')
+            s.AddCashFlow('-W')
+            s.EquationBlock['F'].RHS()
+            m.AddCashFlowIncomeExclusion(s, 'W')
+            m.RegisterCashFlow(s, hh, 'W')
+            c.CurrencyZone.GetSectors()
+            m.GetSectors()
+            done += 1
+        except Exception:
+            pass
+        if idx % 9 == 1:
+            try:
+                build_book('SIM', max_time=2)
+                done += 1
+            except Exception:
+                pass
+    return done
